@@ -58,3 +58,23 @@ Example C03_example :
   run_inner (mkFeat true true false) (fun _ => None) o None [[45;97]%N; [45;110]%N; [120]%N; [119]%N] =
   run_inner (mkFeat true true false) (fun _ => None) o None [[119]%N; [45;110]%N; [120]%N; [45;97]%N].
 Proof. vm_compute. reflexivity. Qed.
+
+(* For the conventional flat levels the general statement holds: the outcome depends on the vector
+   only through, for every item, the sequence of ITS occurrences, and the sequence of positional
+   words -- any two vectors with the same reading are accepted with the same value (Conv.denote is
+   the reading; C01_sentences_accepted_flat ties it to the evaluator). *)
+From BpafModel Require Import Conv.
+From BpafLemmas Require Import AbsSim ConvRefine ConvTotal.
+Theorem C03_order_irrelevant_flat :
+  forall feat env items tail argv1 argv2 sf sa a1 a2 v,
+  flat_ok items tail ->
+  short_tables (compile_options (Level items tail)) = (sf, sa) ->
+  t_ambiguity (tokenize sf sa argv1) = None -> t_ambiguity (tokenize sf sa argv2) = None ->
+  scan items [] tail (mark_tokens (tokenize sf sa argv1)) = ScDone a1 ->
+  scan items [] tail (mark_tokens (tokenize sf sa argv2)) = ScDone a2 ->
+  same_reading a1 a2 ->
+  denote (Level items tail) argv1 = Accept v ->
+  run_inner feat env (compile_options (Level items tail)) None argv1 = OutOk v /\
+  run_inner feat env (compile_options (Level items tail)) None argv2 = OutOk v.
+Proof. exact order_irrelevant_flat. Qed.
+Print Assumptions C03_order_irrelevant_flat.
